@@ -307,6 +307,28 @@ def gen_area(rng, tier_thorough, idx, force=None):
     if tier_thorough and idx % 12 == 0:
         ll.append({"slice": None, "chunks": None, "dtype": None, "nprocs": 2})
     spec["lonlats"] = ll
+    # --- histories of lon/lat accessor calls on one object (the cache=True memo must never change what later calls describe)
+    hists = []
+    if h * w <= 400:
+        exact = h * w <= 64            # small areas: also evaluated bit-exactly by the Coq state machine (float64 only)
+        for _ in range(2 if exact else 1):
+            hist = []
+            for k in range(rng.randint(2, 5)):
+                j = rng.random()
+                if j < 0.6 or (k == 0 and j < 0.85):
+                    sl = rng.choice([None, ["pair", gen_slice1(rng, h), gen_slice1(rng, w)], ["pair", gen_slice1(rng, h), gen_slice1(rng, w)],
+                                     ["single", gen_slice1(rng, h)]])
+                    ch = gen_chunks(rng, h, w) if rng.random() < 0.3 else None
+                    cache = rng.random() < (0.7 if k == 0 else 0.45)
+                    dt = "float32" if (not exact and not cache and rng.random() < 0.2) else None
+                    hist.append({"op": "get_lonlats", "slice": sl, "chunks": ch, "dtype": dt, "cache": cache})
+                elif j < 0.85:
+                    hist.append({"op": "get_lonlat", "row": rng.randint(-h, h - 1), "col": rng.randint(-w, w - 1)})
+                else:
+                    hist.append({"op": "colrow2lonlat", "row": rng.randint(0, h - 1), "col": rng.randint(0, w - 1)})
+            hists.append(hist)
+    spec["histories"] = hists
+    spec["meta"]["hist_exact"] = h * w <= 64
     # --- points in projection coordinates: built from exact fractional-index targets
     x0, y0, x1, y1 = [Fr(v) for v in ext]
     dx, dy = (x1 - x0) / w, (y1 - y0) / h
@@ -673,6 +695,7 @@ class Eval:
             self.coq["index_scalar"].append("(%s, [%s])" % (A, "; ".join(L)))
         # ---------------- lon/lat
         self.lonlat(A, xs, ys, ok)
+        self.histories(A, xs, ys, ok)
         ctx.case(("area", spec["crs"], tuple(bits(v) for v in spec["extent"]), h, w), nontrivial=nontriv,
                  sample={"area": {"crs": self.name, "extent": spec["extent"], "shape": [h, w], "mode": self.meta["mode"], "flip": self.meta["flip"]},
                          "impl_upper_left_pixel": at["pixel_upper_left"]})
@@ -705,6 +728,119 @@ class Eval:
                     if (math.isfinite(a) and math.isfinite(b)) == fi:
                         return True
         return False
+
+    def histories(self, A, xs, ys, vec_ok):
+        """After EVERY step of every call history on one object, the result must be the canonical map."""
+        ctx, spec, obs, o = self.ctx, self.spec, self.obs, self.o
+        h, w = spec["h"], spec["w"]
+        if not spec.get("histories"):
+            return
+        T, P, R = self.T, self.P, self.R
+        cx = np.array([float(o.X(c)) for c in range(w)])
+        cy = np.array([float(o.Y(r)) for r in range(h)])
+        CX, CY = np.meshgrid(cx, cy)
+        RLON, RLAT = R.transform(CX, CY, direction=INV)
+        exact = bool(self.meta.get("hist_exact")) and vec_ok
+        tabT, tabP = {}, {}
+        if exact:
+            X2, Y2 = np.meshgrid(np.array(xs), np.array(ys))
+            tl, ta = T.transform(X2, Y2, direction=INV)
+            for i in range(h):
+                for j in range(w):
+                    tabT[(i, j)] = (xs[j], ys[i], float(tl[i, j]), float(ta[i, j]))
+        for hist, steps in zip(spec["histories"], obs.get("histories", [])):
+            ops_txt, obs_txt = [], []
+            good = True
+            cached_before = False
+            for k, (op, st) in enumerate(zip(hist, steps)):
+                acc = op["op"]
+                what = "step %d of history %s: %s" % (k + 1, [self.op_str(q) for q in hist[:k + 1]], self.op_str(op))
+                ctx.count("history_" + acc + ("_cache" if op.get("cache") else ""))
+                ctx.case(("hist", spec["crs"], tuple(bits(v) for v in spec["extent"]), h, w, repr(hist[:k + 1])),
+                         nontrivial=k > 0 and any(q.get("cache") for q in hist[:k]),
+                         sample={"history": [self.op_str(q) for q in hist[:k + 1]], "shape": [h, w], "crs": self.name,
+                                 "impl": st.get("value") or (st.get("ll") or [{}])[0].get("shape") or st})
+                key = self.ll_key("history." + acc, acc == "colrow2lonlat") if self.cls == "derived_geographic" else "C01.lonlat.history." + acc
+                if "error" in st:
+                    self.fail(key, "%s raised %s" % (what, st), {"history": hist, "step": k})
+                    good = False
+                    break
+                if acc == "get_lonlats":
+                    rows, cols = self.rows_cols(op.get("slice"))
+                    LO, LA = st["ll"]
+                    want = [len(rows), len(cols)]
+                    if LO["shape"] != want or LA["shape"] != want:
+                        self.fail(key, "%s returns shape %s, the selected grid has shape %s" % (what, LO["shape"], want), {"history": hist, "step": k})
+                        good = False
+                        break
+                    lo = np.asarray(LO["data"], dtype=float).reshape(want)
+                    la = np.asarray(LA["data"], dtype=float).reshape(want)
+                    f32 = LO["dtype"] == "float32"
+                else:
+                    rows, cols = [range(h)[op["row"]]], [range(w)[op["col"]]]
+                    lo = np.array([[st["value"][0]]])
+                    la = np.array([[st["value"][1]]])
+                    f32 = False
+                for i, r_ in enumerate(rows):
+                    for j, c_ in enumerate(cols):
+                        fi = math.isfinite(lo[i, j]) and math.isfinite(la[i, j])
+                        fr = math.isfinite(RLON[r_, c_]) and math.isfinite(RLAT[r_, c_])
+                        if f32:
+                            bad = fi and fr and float(ang_deg(lo[i, j], la[i, j], RLON[r_, c_], RLAT[r_, c_])) > 1e-4 and not self.ll_close(
+                                float(lo[i, j]), float(la[i, j]), float(RLON[r_, c_]), float(RLAT[r_, c_]), float(cx[c_]), float(cy[r_]),
+                                16 * U32 * max(o.mx / abs(float(o.dx)), o.my / abs(float(o.dy))) + 1e-3)
+                        else:
+                            bad = not self.ll_close(float(lo[i, j]), float(la[i, j]), float(RLON[r_, c_]), float(RLAT[r_, c_]), float(cx[c_]), float(cy[r_]))
+                        if bad and good:
+                            self.fail(key, "%s gives (%.12g, %.12g) at [%d][%d], i.e. for pixel (row %d, col %d) whose geodetic lon/lat is (%.12g, %.12g)" % (
+                                what, lo[i, j], la[i, j], i, j, r_, c_, RLON[r_, c_], RLAT[r_, c_]),
+                                {"history": hist, "step": k, "impl": [float(lo[i, j]), float(la[i, j])], "required": [float(RLON[r_, c_]), float(RLAT[r_, c_])]})
+                            good = False
+                if not good:
+                    break
+                if exact:
+                    if acc == "get_lonlats":
+                        sl = op.get("slice")
+                        sl_txt = "None" if sl is None else "(Some (%s, %s))" % (zlist(rows), zlist(cols))
+                        ch_txt = "None"
+                        if op.get("chunks") is not None and not cached_before:
+                            nch = self.norm_chunks(op["chunks"], h, w)
+                            ch_txt = "(Some (%s, %s))" % (zlist(nch[0]), zlist(nch[1]))
+                        ops_txt.append("OpLonlats %s %s %s" % (sl_txt, ch_txt, "true" if op.get("cache") else "false"))
+                        if op.get("cache") and op.get("chunks") is None and sl is None:
+                            cached_before = True
+                    elif acc == "get_lonlat":
+                        ops_txt.append("OpGetLonlat %d %d" % (rows[0], cols[0]))
+                    else:
+                        ops_txt.append("OpColrow %d %d" % (cols[0], rows[0]))
+                        k_ = (bits(xs[cols[0]]), bits(ys[rows[0]]))
+                        if k_ not in tabP:
+                            pl_, pa_ = P(float(xs[cols[0]]), float(ys[rows[0]]), inverse=True)
+                            tabP[k_] = (xs[cols[0]], ys[rows[0]], float(pl_), float(pa_))
+                    obs_txt.append("[" + "; ".join("[" + "; ".join("(%s, %s)" % (fhex(lo[i, j]), fhex(la[i, j])) for j in range(lo.shape[1])) + "]"
+                                                   for i in range(lo.shape[0])) + "]")
+            if exact and good and ops_txt:
+                def tab(t):
+                    return "[" + "; ".join("((%s, %s), (%s, %s))" % tuple(fhex(v) for v in e) for e in t.values()) + "]"
+                self.coq["history"].append("(%s, %s, %s, [%s], ([%s] : list (list (list (float * float)))))" % (
+                    A, tab(tabT), tab(tabP), "; ".join(ops_txt), "; ".join(obs_txt)))
+
+    @staticmethod
+    def op_str(op):
+        if op["op"] == "get_lonlats":
+            return "get_lonlats(data_slice=%r, chunks=%r, dtype=%r, cache=%r)" % (op.get("slice"), op.get("chunks"), op.get("dtype"), bool(op.get("cache")))
+        if op["op"] == "get_lonlat":
+            return "get_lonlat(%d, %d)" % (op["row"], op["col"])
+        return "colrow2lonlat(%d, %d)" % (op["col"], op["row"])
+
+    @staticmethod
+    def norm_chunks(ch, h, w):
+        import dask.array as da
+        if isinstance(ch, list):
+            ch = tuple(tuple(x) if isinstance(x, list) else x for x in ch)
+        y, x = (ch, ch) if isinstance(ch, int) else (ch[0], ch[1])
+        n = da.core.normalize_chunks((y, x), (h, w), dtype=np.float64)
+        return [list(map(int, n[0])), list(map(int, n[1]))]
 
     def lonlat(self, A, xs, ys, vec_ok):
         ctx, spec, obs, o = self.ctx, self.spec, self.obs, self.o
@@ -968,7 +1104,7 @@ class Eval:
 
 # ------------------------------------------------------------------------------------------------ run
 HDR = ("From Coq Require Import ZArith List Bool PrimFloat.\n"
-       "From PR Require Import Base.Num Base.F64 Base.ListX Model.Grid Model.C01_Area Model.C01_run.\n"
+       "From PR Require Import Base.Num Base.F64 Base.ListX Model.Grid Model.C01_Area Model.C01_Cache Model.C01_run.\n"
        "Import ListNotations.\nOpen Scope Z_scope.\n")
 GEN_CHK = ("Definition chk_gen_arr (c : area float * list (float * float * float * float)) : bool := let '(a, pts) := c in "
            "forallb (fun p => let '(x, y, cf, rf) := p in ff_eqb (gen01_array_coordinates_from_projection_coordinates F64 a x y) (cf, rf)) pts.\n"
@@ -976,7 +1112,7 @@ GEN_CHK = ("Definition chk_gen_arr (c : area float * list (float * float * float
            "forallb (fun p => let '(cf, rf, x, y) := p in ff_eqb (gen01_projection_coordinates_from_array_coordinates F64 a cf rf) (x, y)) pts.\n")
 CHK = {"attrs": "chk_attrs", "vectors": "chk_vectors", "coords_numpy": "chk_coords_numpy", "coords_dask": "chk_coords_dask",
        "arr_of_proj": "chk_arr_of_proj", "proj_of_arr": "chk_proj_of_arr", "index_array": "chk_index_array",
-       "index_scalar": "chk_index_scalar", "lonlat": "chk_lonlat"}
+       "index_scalar": "chk_index_scalar", "lonlat": "chk_lonlat", "history": "chk_history"}
 def evaluate(ctx, specs):
     """Run the implementation on the specs, apply the property oracle; returns per-area Coq case lines."""
     obs = []
